@@ -48,8 +48,8 @@ class C01(Check):
         "pattern_start)*demand_multiplier over all entries (M2 Pattern model). The real rows and the real simulator are checked "
         "against the Lean driver on every run (exact rationals).",
         design_ref="DESIGN.md §5 C01",
-        note="partial on numerics: the Newton iteration / LU / IEEE rounding are not modelled; the only fact assumed of the solver is "
-        "'returned converged => max|row| < TOL' (read off NewtonSolver.solve and observed on every solve of every run by wrapping it). "
+        note="partial on numerics: LU and IEEE rounding are not modelled; the only fact used of the solver is 'converged => max|row| < TOL'. "
+        "That NewtonSolver.solve returns `converged` only for a model state with max|r| < TOL is not a trusted reading of solvers.py: it is the theorem newton_converged_implies_small_residual (Props/C16Newton.lean, over Model/Newton.lean, for every residual function, linear-solve behaviour and option set), tied to the source on every C16 run by the regenerated skeleton Gen/NewtonShape.lean, the replay of every observed solve call through Drivers/NewtonDriver.lean, and the re-evaluation of max|r| on the real model after each converged return; this check additionally re-evaluates max|r| on the real model after every converged return of its own runs. "
         "store_results_in_network, expected_demand_param and Pattern/TimeSeries/Demands.at are hand transliterations tied by the "
         "simulation oracle (reported demand vs the Lean expectedDemand, exact to 1e-12). INLET/OUTLET of arbitrary registries is the "
         "C14 invariant; here adjacency is checked on the zoo (proof) and on random networks (oracle with adjacency from the spec). "
@@ -64,7 +64,8 @@ class C01(Check):
     )
     trusted_base = [
         "translator harness/translate/rows_c01c02.py (amldump runtime reflection of the aml rows; link table read off the link objects)",
-        "NewtonSolver contract 'converged => max|residual| < TOL' (observed at every return, not proved)",
+        "'converged => max|residual| < TOL' is theorem newton_converged_implies_small_residual (Props/C16Newton.lean over Model/Newton.lean, tied to solvers.py "
+        "by C16: Gen/NewtonShape.lean, Drivers/NewtonDriver.lean replay, re-evaluated max|r|); here it is re-observed at every converged return of this check's runs",
         "IEEE-754 rounding not modelled (slack 1e-9 relative in the junction balance, 1e-12 in the exact identities)",
     ]
     assumptions = [
